@@ -30,7 +30,7 @@ class YowMessagesProtocolLayer(YowProtocolLayer):
         if protoNode:
             if protoNode and protoNode["mediatype"] is None:
                 message = AttributesConverter.get().protobytes_to_message(protoNode.getData())
-                if message.conversation:
+                if message.conversation is not None:
                     self.toUpper(
                         TextMessageProtocolEntity(
                             message.conversation, MessageMetaAttributes.from_message_protocoltreenode(node)
